@@ -1,12 +1,15 @@
 """C02 -- stochastic gradient is exact on affine ensembles and zero on fixed variables.
 
-Correspondence: the real EnsembleEvaluator.calculate(compute_functions=True, compute_gradients=True) is
-run on generated ensembles (affine, plus some quadratic ones to exercise the solver) with perturbations
-from an injected deterministic sampler plug-in (registered through PluginManager.add_plugin) and from
-every built-in sampler.  The reported perturbed variables, per-realization values (after NaN
-propagation), weights in force, failure flags and gradients go to Coq, where Check/Chk_C02.v re-runs
-Model/Gradient.v (certified exact least squares over Q) on them and compares.  A second case kind calls
-the real _invert_linear_equations directly.
+Correspondence: on ONE EnsembleEvaluator object a sequence of requests is issued (function requests, gradient-only
+requests, combined requests, batches; at the point under test and at other points; directly through
+EnsembleEvaluator.calculate or through the optimizer callback of a real EnsembleOptimizer driven by a scripted optimizer
+plug-in; optionally always through the same caller-owned buffer).  The LAST request is a gradient request at the
+configured initial values; it is the one that is judged.  Ensembles are affine (plus some quadratic ones to exercise the
+solver), perturbations come from an injected deterministic sampler plug-in, from every built-in sampler, or from several
+samplers assigned per variable.  The reported perturbed variables, per-realization values (after NaN propagation), weights
+in force, failure flags and gradients, the rows the user's evaluator actually received and the matrix the optimizer
+callback returned go to Coq, where Check/Chk_C02.v re-runs Model/Gradient.v (certified exact least squares over Q) on them
+and compares.  A second case kind calls the real _invert_linear_equations directly.
 """
 from __future__ import annotations
 
@@ -26,30 +29,68 @@ PARALLEL = True
 KNOWN_ID = "C02:merged-gradient-scaled"
 
 RULE = ("seeded random ensembles: 1..5 realizations, 1..4 variables with random masks (incl. a single free variable), "
-        "1..6 perturbations, 1..3 objectives and 0..2 constraints, mean/stddev estimators, dyadic slopes/offsets/weights "
-        "(weights with zeros), NaN in unperturbed and perturbed slots (any column), perturbation_min_success / "
-        "realization_min_success thresholds, magnitudes (scalar and per variable), bounds with every boundary type that keep or "
-        "clip the design, optional VariableScaler, optional realization filters (sort/cvar on objectives or constraints), merged "
-        "and per-realization estimation.  Perturbations: injected deterministic designs (signed permutations of the unit "
-        "vectors plus dyadic rows, shared or per realization) and every built-in sampler (norm, uniform, truncnorm, sobol, "
-        "halton, lhs) with several seeds (full-precision floats).  Plus quadratic (non-affine) ensembles compared with the "
+        "1..6 perturbations, 1..3 objectives and 0..2 constraints, mean/stddev estimators configured through estimator lists of "
+        "different order, with duplicates, unused entries, 'default' spelling and omitted index arrays, dyadic "
+        "slopes/offsets/weights (weights with zeros), NaN in unperturbed and perturbed slots (any column), "
+        "perturbation_min_success / realization_min_success thresholds (also left to their defaults), magnitudes (scalar and "
+        "per variable, absolute and relative), finite bounds that keep or clip the design and partly infinite bounds with every "
+        "boundary type, optional VariableScaler, zero to two realization filters (sort/cvar on objectives or constraints) mapped "
+        "to subsets of the functions, merged (shared perturbations; identical realizations with equal or unequal weights; also "
+        "with fewer perturbations than free variables per realization) and per-realization estimation, and merged estimation "
+        "with a stddev estimator (must be rejected).  Perturbations: injected deterministic designs (signed permutations of the "
+        "unit vectors plus dyadic rows, shared or per realization), every built-in sampler (norm, uniform, truncnorm, sobol, "
+        "halton, lhs) with int and tuple seeds (full-precision floats), and two or three samplers assigned per variable "
+        "(several of one method, entries no variable uses).  Requests: the judged gradient request (combined or gradient-only) "
+        "is preceded by 0-3 other requests on the same evaluator object -- functions at the same point (cached path), functions "
+        "or combined requests at other points (also points that differ in fixed variables only, and points a tiny dyadic step "
+        "2^-20 .. 2^-60 away, above and below the evaluator's same-point tolerance), gradient-only requests, batches "
+        "whose first or other row is the point -- issued through EnsembleEvaluator.calculate (70-75 %) or through the optimizer "
+        "callback of EnsembleOptimizer (scripted optimizer plug-in), in 30 % of the cases always through one re-used buffer; in "
+        "25 % a second evaluator object for a different ensemble is built and used in between; the unperturbed failure pattern "
+        "at the other points may differ.  Plus quadratic (non-affine) ensembles compared with the "
         "exact least-squares answer, a stream of rank-deficient / ill-conditioned designs (counted as trivial) and direct calls "
-        "of _invert_linear_equations.  Non-trivial = gradients were reported, the ensemble is affine, every contributing "
-        "realization's reported difference matrix (free columns, successful rows) has full column rank with smallest squared "
-        "singular value >= 1 % of the total (NumPy), and the case is outside the merged-estimation known finding; for "
-        "_invert_linear_equations cases: the same bound on the matrix.  distinct = distinct case dictionaries.")
+        "of _invert_linear_equations (incl. matrices between the 0.1 % truncation point and the 1 % bound).  Non-trivial = "
+        "gradients were reported, the ensemble is affine, every contributing realization's reported difference matrix (free "
+        "columns, successful rows) has full column rank with smallest squared singular value >= 1 % of the total (NumPy), and "
+        "the case is outside the merged-estimation known finding; for _invert_linear_equations cases: the same bound on the "
+        "matrix.  distinct = distinct case dictionaries.")
 ASSUMPTIONS = [
-    "the evaluator is a table-driven affine (or quadratic) function of (variables, realization) that returns NaN in the generated failure slots",
+    "the evaluator is a table-driven affine (or quadratic) function of (variables, realization) that returns NaN in the generated failure slots; it evaluates every row it is given (it ignores the active flags), is deterministic, and its failure pattern for unperturbed rows depends on the point of the request sequence only",
     "NumPy/LAPACK singular values of the reported difference matrices are used to decide (through the model's own 99.9 % rule with the generated SVD_TOLERANCE) whether a value comparison is made, and to classify cases as non-trivial (1 % bound)",
-    "merged estimation is only generated where the property speaks about it: shared perturbations with a common set of successful rows, or identical realizations with equal non-zero weights (for identical realizations with unequal weights and non-shared perturbations the known finding yields a gradient that is not a multiple of the exact one)",
+    "merged estimation is generated where the property speaks about it (shared perturbations with a common set of successful rows, or identical realizations) and, as trivial cases, with fewer perturbations than free variables; inside the known finding the reported gradient must equal the one-sided-weight stacked solve the finding describes",
+    "same point: two vectors of one request sequence are the same point iff they agree within the evaluator's documented test (absolute 1e-15); the other points are 1/8 or more away, or a tiny dyadic step (2^-20 .. 2^-46, above the test: another point whose cached function values must not be used; 2^-51 .. 2^-60, below it: the same point, the resulting error is far below the comparison tolerance)",
+    "when a gradient-only request is answered from cached function results, the function results in force are those of the latest function request at exactly that vector on the same evaluator (the evaluator is deterministic, so any of them is the same)",
 ]
 TRUSTED = [
     "LAPACK SVD inside _invert_linear_equations is an oracle: the model solves the same least-squares problem exactly (certified normal equations) and the two are compared numerically on every case",
     "float rounding: exact-rational model + tolerance |x-m| <= 1e-12*S + 1e-9*|m| with S = largest input magnitude / smallest singular value",
+    "the scripted optimizer plug-in and the injected sampler plug-in of the harness (they only forward the generated request sequence / design)",
 ]
 
 METHODS = ["norm", "uniform", "truncnorm", "sobol", "halton", "lhs"]
 FILTERS = ["sort-objective", "cvar-objective", "sort-constraint", "cvar-constraint"]
+
+# request sequences issued on ONE evaluator object; the LAST request is the gradient request under test at point 0
+# (= the configured initial values), the others are its history.  op = [kind, points, batch]: kind "f" (functions),
+# "g" (gradient only), "fg" (both); points index the case's point list; batch = the vectors are passed as a matrix.
+REQUESTS = [
+    ("combined", 30, [], "fg"),
+    ("functions-then-gradient", 18, [["f", [0], False]], "g"),
+    ("gradient-only-nothing-cached", 5, [], "g"),
+    ("functions-elsewhere-then-gradient", 8, [["f", [1], False]], "g"),
+    ("combined-elsewhere-then-combined", 4, [["fg", [1], False]], "fg"),
+    ("combined-twice", 3, [["fg", [0], False]], "fg"),
+    ("gradient-twice-on-one-cache", 4, [["f", [0], False], ["g", [0], False]], "g"),
+    ("functions-here-then-elsewhere", 4, [["f", [0], False], ["f", [1], False]], "g"),
+    ("functions-elsewhere-then-here", 4, [["f", [1], False], ["f", [0], False]], "g"),
+    ("cache-reset-by-combined-elsewhere", 4, [["f", [0], False], ["fg", [1], False]], "g"),
+    ("gradient-elsewhere-then-here", 3, [["f", [0], False], ["g", [1], False]], "g"),
+    ("batch-first-row-is-the-point", 4, [["f", [0, 1], True]], "g"),
+    ("batch-other-row-is-the-point", 4, [["f", [1, 0], True]], "g"),
+    ("batch-of-one", 2, [["f", [0], True]], "g"),
+    ("random", 6, None, None),
+]
+ERRORS = (ValueError, ZeroDivisionError, FloatingPointError, ArithmeticError)
 
 
 # ---------------------------------------------------------------------------------------------------
@@ -95,7 +136,106 @@ def _design(rng, P, V, free_idx):
     return rows
 
 
-def gen_ens(rng, *, sampler="inject", merge=None, affine=True, edge=False, small=False, simple=False):
+def _gen_request(rng, V, free_idx, favour_split=False, request=None):
+    """request sequence, the points it visits, and how it is issued"""
+    names = [r[0] for r in REQUESTS]
+    if request is None:
+        if favour_split and rng.random() < 0.5:
+            request = rng.choice(["functions-then-gradient", "gradient-twice-on-one-cache", "batch-first-row-is-the-point",
+                                  "functions-elsewhere-then-here"])
+        else:
+            request = rng.choices(names, weights=[r[1] for r in REQUESTS])[0]
+    _, _, ops, final = REQUESTS[names.index(request)]
+    if ops is None:
+        ops = []
+        for _ in range(rng.randint(1, 3)):
+            kind = rng.choice(["f", "f", "g", "fg", "F"])
+            if kind == "F":
+                ops.append(["f", [rng.randrange(3) for _ in range(rng.randint(1, 3))], True])
+            else:
+                ops.append([kind, [rng.randrange(3)], False])
+        final = rng.choice(["g", "g", "fg"])
+    via = "optimizer" if rng.random() < 0.25 else "evaluator"
+    points = []
+    for _ in range(2):
+        d = [0.0] * V
+        for i in range(V):
+            if i in free_idx or (via == "evaluator" and rng.random() < 0.4):
+                d[i] = rng.choice([-1.0, -0.5, -0.25, -0.125, 0.125, 0.25, 0.5, 1.0, 0.0])
+        if all(d[i] == 0.0 for i in free_idx):
+            d[rng.choice(list(free_idx))] = rng.choice([-0.5, 0.25, 1.0])
+        points.append(d)
+    if points[1] == points[0]:
+        points[1] = [-v for v in points[0]]
+    fixed_idx = [i for i in range(V) if i not in free_idx]
+    if rng.random() < 0.2:
+        # a point a tiny dyadic step away from the initial values: above the evaluator's same-point tolerance (1e-15) it is
+        # another point (its cached function values must not be used), below it it is the same point
+        d = [0.0] * V
+        idx = rng.choice(list(free_idx) if via == "optimizer" or rng.random() < 0.8 else list(range(V)))
+        d[idx] = rng.choice([-1.0, 1.0]) * 2.0 ** -rng.choice([20, 20, 26, 32, 40, 46, 51, 54, 60])
+        points[0] = d
+    elif via == "evaluator" and fixed_idx and rng.random() < 0.35:
+        # a point that differs from the initial values in fixed variables only (what a nested optimization produces)
+        d = [0.0] * V
+        d[rng.choice(fixed_idx)] = rng.choice([-1.0, -0.25, 0.5, 1.0])
+        points[0] = d
+    return {"request": request, "ops": [list(o) for o in ops], "final": final, "via": via, "points": points,
+            "reuse_buffer": rng.random() < 0.3, "decoy": rng.random() < 0.25}
+
+
+def _gen_samplers(rng, P, V, R, free_idx, sampler, shared_all, multi):
+    """sampler section of a case.  single: one sampler for all variables; multi: 2-3 configured samplers (injected designs
+    and built-in methods, also several of the same method and entries that no variable uses) assigned per variable"""
+    def one(kind, shared):
+        if kind == "inject":
+            return {"kind": "inject", "shared": shared, "design": [_design(rng, P, V, free_idx) for _ in range(1 if shared else R)]}
+        return {"kind": "builtin", "method": kind, "shared": shared}
+    seed = rng.randint(0, 10 ** 6) if rng.random() < 0.7 else [rng.randint(0, 99), rng.randint(0, 10 ** 6)]
+    if not multi:
+        if sampler == "inject":
+            shared = shared_all if shared_all is not None else rng.random() < 0.25
+        else:
+            shared = shared_all if shared_all is not None else rng.random() < 0.3
+        s = one(sampler, shared)
+        s["seed"] = seed
+        return s
+    n = rng.choice([2, 2, 3])
+    kinds = [rng.choice(["inject", "inject", "inject", sampler if sampler != "inject" else rng.choice(METHODS)]) for _ in range(n)]
+    if rng.random() < 0.3:
+        kinds[1] = kinds[0]                       # several samplers of the same method
+    lst = [one(k, shared_all if shared_all is not None else rng.random() < 0.3) for k in kinds]
+    used = list(range(n))
+    if rng.random() < 0.3:
+        used.remove(rng.randrange(n))             # a configured sampler that no variable uses
+    assign = [rng.choice(used) for _ in range(V)]
+    return {"kind": "multi", "list": lst, "assign": assign, "seed": seed, "shared": all(s["shared"] for s in lst)}
+
+
+def _gen_estimators(rng, stds, no, merge):
+    """function_estimators section: the configured list (order, duplicates, unused entries, spellings) and the index arrays
+    (None = field omitted: every function uses entry 0)"""
+    if not any(stds):
+        layout = rng.choice([None, ["mean"], ["default"], ["mean", "mean"], ["default", "mean"]] if merge else
+                            [None, ["mean"], ["default"], ["mean", "stddev"], ["stddev", "mean"], ["mean", "mean"]])
+    else:
+        layout = rng.choice([["mean", "stddev"], ["stddev", "mean"], ["mean", "stddev", "mean"], ["stddev", "default", "stddev"],
+                             ["default", "stddev"]])
+    if layout is None:
+        return {"layout": None, "obj": None, "con": None}
+    def pick(is_std):
+        return rng.choice([k for k, m in enumerate(layout) if (m == "stddev") == is_std])
+    idx = [pick(s) for s in stds]
+    obj, con = idx[:no], idx[no:]
+    if all(v == 0 for v in obj) and rng.random() < 0.5:
+        obj = None
+    if con and all(v == 0 for v in con) and rng.random() < 0.5:
+        con = None
+    return {"layout": layout, "obj": obj, "con": con if con else None}
+
+
+def gen_ens(rng, *, sampler="inject", merge=None, affine=True, edge=False, small=False, simple=False, request=None,
+            std_with_merge=False):
     V = rng.choice([1, 2, 2, 3] if small else [1, 2, 2, 3, 3, 4])
     R = rng.choice([1, 2, 2, 3] if small else [1, 2, 3, 3, 4, 5])
     mask = None
@@ -105,7 +245,8 @@ def gen_ens(rng, *, sampler="inject", merge=None, affine=True, edge=False, small
             mask[rng.randrange(V)] = True
     free_idx = [i for i in range(V) if mask is None or mask[i]]
     nfree = len(free_idx)
-    if edge:
+    if edge or (merge and rng.random() < 0.25):
+        # fewer perturbations than free variables per realization (what merge_realizations is meant for)
         P = max(1, nfree - rng.choice([0, 1, 1]))
     elif sampler == "inject":
         P = min(6, nfree + rng.choice([0, 0, 1, 1, 2, 3]))
@@ -121,14 +262,17 @@ def gen_ens(rng, *, sampler="inject", merge=None, affine=True, edge=False, small
         stds = [rng.random() < 0.3 for _ in range(nf)]
     merge_mode = None
     if merge:
-        merge_mode = rng.choice(["shared", "shared", "identical"])
+        merge_mode = rng.choice(["shared", "shared", "identical", "identical-unequal"])
+        if std_with_merge:       # a stddev estimator together with merge_realizations: the configuration must be rejected
+            stds = [rng.random() < 0.5 for _ in range(nf)]
+            stds[rng.randrange(nf)] = True
     weights = _weights(rng, R, equal=(merge_mode == "identical"))
     ow = [rng.choice([0.0, 0.25, 0.5, 1.0, 1.0, 2.0]) for _ in range(no)]
     if not any(ow):
         ow[0] = 1.0
     den = 16
     slopes = [[[_dy(rng, -3, 3, den) for _ in range(V)] for _ in range(nf)] for _ in range(R)]
-    if merge_mode == "identical" or (not merge and rng.random() < 0.05):
+    if merge_mode in ("identical", "identical-unequal") or (not merge and rng.random() < 0.05):
         slopes = [slopes[0] for _ in range(R)]
     offsets = [[_dy(rng, -3, 3, den) for _ in range(nf)] for _ in range(R)]
     quad = None
@@ -144,24 +288,22 @@ def gen_ens(rng, *, sampler="inject", merge=None, affine=True, edge=False, small
         col = [rng.random() < pf for _ in range(P)]          # a failure hits the same perturbation everywhere
         pfail = [list(col) for _ in range(R)]
     failcol = [[rng.randrange(nf) for _ in range(P + 1)] for _ in range(R)]
-    pmin = rng.randint(1, P)
+    pmin = rng.randint(1, P) if rng.random() < 0.85 else None
     if merge_mode == "shared":
         pmin = 1
-    rmin = rng.choice([0, 1, 1, rng.randint(0, R)])
-    # sampler
-    if sampler == "inject":
-        shared = (merge_mode == "shared") or (merge_mode is None and rng.random() < 0.25)
-        design = [_design(rng, P, V, free_idx) for _ in range(1 if shared else R)]
-        samp = {"kind": "inject", "shared": shared, "design": design}
-    else:
-        shared = (merge_mode == "shared") or (merge_mode is None and rng.random() < 0.3)
-        samp = {"kind": "builtin", "method": sampler, "shared": shared, "seed": rng.randint(0, 10 ** 6)}
+    rmin = rng.choice([0, 1, 1, rng.randint(0, R), None])
+    # the failure pattern of the unperturbed evaluations at the other points of the request sequence
+    rfail_alt = [list(rfail) if rng.random() < 0.5 else [rng.random() < 0.25 for _ in range(R)] for _ in range(2)]
+    # samplers
+    multi = (not simple) and V >= 2 and rng.random() < 0.15
+    samp = _gen_samplers(rng, P, V, R, free_idx, sampler, True if merge_mode == "shared" else None, multi)
     if rng.random() < 0.5:
         magnitudes = rng.choice([0.125, 0.25, 0.5])
     else:
         magnitudes = [rng.choice([0.125, 0.25, 0.5]) for _ in range(V)]
     bounds = None
     boundary = None
+    ptypes = None
     r = rng.random()
     if r < 0.2:      # wide bounds: the design is kept
         bounds = [[v - rng.choice([2.0, 4.0]) for v in x0], [v + rng.choice([2.0, 4.0]) for v in x0]]
@@ -169,36 +311,51 @@ def gen_ens(rng, *, sampler="inject", merge=None, affine=True, edge=False, small
     elif r < 0.4:    # tight bounds: the design is clipped / mirrored (NONE keeps it)
         bounds = [[v - rng.choice([0.0625, 0.125, 0.25, 1.0]) for v in x0], [v + rng.choice([0.0625, 0.125, 0.25, 1.0]) for v in x0]]
         boundary = rng.choice([1, 2, 3]) if rng.random() < 0.5 else [rng.choice([1, 2, 3]) for _ in range(V)]
+    elif r < 0.5:    # one-sided / partly infinite bounds
+        lo, hi = [], []
+        for v in x0:
+            k = rng.choice(["lower", "upper", "both", "none"])
+            lo.append(v - rng.choice([0.0625, 0.25, 1.0]) if k in ("lower", "both") else -math.inf)
+            hi.append(v + rng.choice([0.0625, 0.25, 1.0]) if k in ("upper", "both") else math.inf)
+        bounds = [lo, hi]
+        boundary = rng.choice([1, 2, 3]) if rng.random() < 0.5 else [rng.choice([1, 2, 3]) for _ in range(V)]
+    if bounds is not None and all(math.isfinite(v) for v in bounds[0] + bounds[1]) and rng.random() < 0.35:
+        ptypes = rng.choice([2, [rng.choice([1, 2]) for _ in range(V)]])      # relative perturbation magnitudes
     scaler = None
     if rng.random() < 0.3:
         scaler = {"scales": [rng.choice([0.5, 2.0, 4.0, 1.0]) for _ in range(V)],
                   "offsets": [_dy(rng, -1, 1, 4) for _ in range(V)] if rng.random() < 0.6 else None}
     filt = None
-    if not merge and not simple and R >= 2 and rng.random() < 0.25:
-        method = rng.choice(FILTERS if nc else FILTERS[:2])
-        on_obj = method.endswith("objective")
-        if method.startswith("sort"):
-            first = rng.randint(0, R - 1)
-            opts = {"sort": [rng.randrange(no)] if on_obj else rng.randrange(nc), "first": first, "last": rng.randint(first, R - 1)}
-        else:
-            opts = {"sort": [rng.randrange(no)] if on_obj else rng.randrange(nc), "percentile": rng.choice([0.25, 0.5, 0.75, 1.0])}
-        ofilt = [0 if rng.random() < 0.6 else -1 for _ in range(no)]
-        cfilt = [0 if rng.random() < 0.6 else -1 for _ in range(nc)]
+    if merge_mode in (None, "shared") and not simple and R >= 2 and rng.random() < 0.25:
+        filt = []
+        for _ in range(rng.choice([1, 1, 2])):
+            method = rng.choice(FILTERS if nc else FILTERS[:2])
+            on_obj = method.endswith("objective")
+            if method.startswith("sort"):
+                first = rng.randint(0, R - 1)
+                opts = {"sort": [rng.randrange(no)] if on_obj else rng.randrange(nc), "first": first, "last": rng.randint(first, R - 1)}
+            else:
+                opts = {"sort": [rng.randrange(no)] if on_obj else rng.randrange(nc), "percentile": rng.choice([0.25, 0.5, 0.75, 1.0])}
+            filt.append({"method": method, "options": opts})
+        pick = [-1] + list(range(len(filt))) * 2
+        ofilt = [rng.choice(pick) for _ in range(no)]
+        cfilt = [rng.choice(pick) for _ in range(nc)]
         if all(v < 0 for v in ofilt + cfilt):
             ofilt[0] = 0
-        filt = {"method": method, "options": opts, "ofilt": ofilt, "cfilt": cfilt}
-    return {"kind": "ens", "V": V, "R": R, "P": P, "no": no, "nc": nc, "x0": x0, "mask": mask, "weights": weights,
+        filt = {"filters": filt, "ofilt": ofilt, "cfilt": cfilt}
+    case = {"kind": "ens", "V": V, "R": R, "P": P, "no": no, "nc": nc, "x0": x0, "mask": mask, "weights": weights,
             "ow": ow, "stds": stds, "slopes": slopes, "offsets": offsets, "quad": quad, "pmin": pmin, "rmin": rmin,
             "merge": bool(merge), "merge_mode": merge_mode, "sampler": samp, "magnitudes": magnitudes, "bounds": bounds,
-            "boundary": boundary, "pfail": pfail, "rfail": rfail, "failcol": failcol, "scaler": scaler, "filter": filt,
-            "split": rng.random() < (0.6 if filt is not None else 0.25)}
+            "boundary": boundary, "ptypes": ptypes, "pfail": pfail, "rfail": rfail, "rfail_alt": rfail_alt, "failcol": failcol,
+            "scaler": scaler, "filter": filt, "estimators": _gen_estimators(rng, stds, no, bool(merge))}
+    case.update(_gen_request(rng, V, free_idx, favour_split=filt is not None, request=request))
+    return case
 
 
 def gen_ls(rng, *, between=False, full=False):
     n = rng.choice([1, 2, 2, 3, 3, 4])
     m = n + rng.choice([0, 1, 1, 2, 3])
     if full:
-        import random as _r
         A = [[rng.gauss(0, 1) * 0.25 for _ in range(n)] for _ in range(m)]
     else:
         A = [[_dy(rng, -1, 1, 8) * 0.25 for _ in range(n)] for _ in range(m)]
@@ -221,7 +378,7 @@ def gen_cases(tier, rng):
     n_inject = 900 if quick else 9000
     n_builtin = 144 if quick else 1800
     n_quad = 100 if quick else 1200
-    n_merge = 100 if quick else 1200
+    n_merge = 120 if quick else 1400
     n_edge = 60 if quick else 800
     n_ls = 200 if quick else 2000
     plan = (["inject"] * n_inject + ["builtin"] * n_builtin + ["quad"] * n_quad + ["merge"] * n_merge
@@ -237,7 +394,9 @@ def gen_cases(tier, rng):
         elif kind == "quad":
             yield gen_ens(rng, affine=False)
         elif kind == "merge":
-            if rng.random() < 0.2:
+            if rng.random() < 0.06:
+                yield gen_ens(rng, merge=True, std_with_merge=True, simple=True)
+            elif rng.random() < 0.2:
                 yield gen_ens(rng, sampler=rng.choice(METHODS), merge=True, small=True)
             else:
                 yield gen_ens(rng, merge=True)
@@ -251,9 +410,29 @@ def gen_cases(tier, rng):
 # ---------------------------------------------------------------------------------------------------
 # driver: the real code
 # ---------------------------------------------------------------------------------------------------
-def _plugin_manager():
+def _request(case):
+    """(pre-ops, final op, via, re-use the caller's buffer); corpus cases written before request sequences existed carry
+    only the flag 'split'"""
+    if "ops" in case:
+        return case["ops"], case["final"], case.get("via", "evaluator"), bool(case.get("reuse_buffer"))
+    if case.get("split"):
+        return [["f", [0], False]], "g", "evaluator", False
+    return [], "fg", "evaluator", False
+
+
+def _filters(case):
+    f = case.get("filter")
+    if f is None:
+        return None
+    if "filters" in f:
+        return f
+    return {"filters": [{"method": f["method"], "options": f["options"]}], "ofilt": f["ofilt"], "cfilt": f["cfilt"]}
+
+
+def _plugin_manager(script=None):
     import numpy as np
     from ropt.plugins import PluginManager
+    from ropt.plugins.optimizer.base import Optimizer, OptimizerPlugin
     from ropt.plugins.sampler.base import Sampler, SamplerPlugin
 
     class InjectedSampler(Sampler):
@@ -276,9 +455,40 @@ def _plugin_manager():
         def is_supported(self, method):
             return method.lower() == "inject"
 
+    class ScriptedOptimizer(Optimizer):
+        """issues the case's request sequence through the optimizer callback"""
+        def __init__(self, config, callback):
+            self._cb = callback
+
+        def start(self, initial_values):
+            script(self._cb, initial_values)
+
+        @property
+        def allow_nan(self):
+            return False
+
+        @property
+        def is_parallel(self):
+            return False
+
+    class ScriptedOptimizerPlugin(OptimizerPlugin):
+        def create(self, config, callback):
+            return ScriptedOptimizer(config, callback)
+
+        def is_supported(self, method):
+            return method.lower() == "script"
+
     pm = PluginManager()
     pm.add_plugin("sampler", "verif", InjectedSamplerPlugin())
+    if script is not None:
+        pm.add_plugin("optimizer", "verif", ScriptedOptimizerPlugin())
     return pm
+
+
+def _sampler_cfg(s):
+    if s["kind"] == "inject":
+        return {"method": "verif/inject", "options": {"design": s["design"]}, "shared": s["shared"]}
+    return {"method": s["method"], "shared": s["shared"]}
 
 
 def _config_dict(case):
@@ -286,14 +496,29 @@ def _config_dict(case):
     stds = case["stds"]
     cfg = {
         "variables": {"initial_values": case["x0"]},
-        "realizations": {"weights": case["weights"], "realization_min_success": case["rmin"]},
-        "objectives": {"weights": case["ow"], "function_estimators": [1 if s else 0 for s in stds[:no]]},
-        "function_estimators": [{"method": "mean"}, {"method": "stddev"}],
-        "gradient": {"number_of_perturbations": case["P"], "perturbation_min_success": case["pmin"],
+        "realizations": {"weights": case["weights"]},
+        "objectives": {"weights": case["ow"]},
+        "gradient": {"number_of_perturbations": case["P"],
                      "perturbation_magnitudes": case["magnitudes"], "merge_realizations": case["merge"]},
     }
-    if case["merge"]:
-        cfg["function_estimators"] = [{"method": "mean"}]
+    if case["rmin"] is not None:
+        cfg["realizations"]["realization_min_success"] = case["rmin"]
+    if case["pmin"] is not None:
+        cfg["gradient"]["perturbation_min_success"] = case["pmin"]
+    if nc:
+        cfg["nonlinear_constraints"] = {"lower_bounds": [0.0] * nc, "upper_bounds": [1.0] * nc}
+    est = case.get("estimators")
+    if est is None:              # cases written before estimator layouts existed
+        cfg["function_estimators"] = [{"method": "mean"}] if case["merge"] else [{"method": "mean"}, {"method": "stddev"}]
+        cfg["objectives"]["function_estimators"] = [1 if s else 0 for s in stds[:no]]
+        if nc:
+            cfg["nonlinear_constraints"]["function_estimators"] = [1 if s else 0 for s in stds[no:]]
+    elif est["layout"] is not None:
+        cfg["function_estimators"] = [{"method": m} for m in est["layout"]]
+        if est["obj"] is not None:
+            cfg["objectives"]["function_estimators"] = est["obj"]
+        if nc and est["con"] is not None:
+            cfg["nonlinear_constraints"]["function_estimators"] = est["con"]
     if case["mask"] is not None:
         cfg["variables"]["mask"] = case["mask"]
     if case["bounds"] is not None:
@@ -302,21 +527,24 @@ def _config_dict(case):
         cfg["gradient"]["boundary_types"] = case["boundary"]
     else:
         cfg["gradient"]["boundary_types"] = 1
-    if nc:
-        cfg["nonlinear_constraints"] = {"lower_bounds": [0.0] * nc, "upper_bounds": [1.0] * nc,
-                                        "function_estimators": [1 if s else 0 for s in stds[no:]]}
+    if case.get("ptypes") is not None:
+        cfg["gradient"]["perturbation_types"] = case["ptypes"]
     s = case["sampler"]
-    if s["kind"] == "inject":
-        cfg["samplers"] = [{"method": "verif/inject", "options": {"design": s["design"]}, "shared": s["shared"]}]
+    if s["kind"] == "multi":
+        cfg["samplers"] = [_sampler_cfg(e) for e in s["list"]]
+        cfg["gradient"]["samplers"] = s["assign"]
     else:
-        cfg["samplers"] = [{"method": s["method"], "shared": s["shared"]}]
-        cfg["gradient"]["seed"] = s["seed"]
-    f = case["filter"]
+        cfg["samplers"] = [_sampler_cfg(s)]
+    if "seed" in s:
+        cfg["gradient"]["seed"] = s["seed"] if isinstance(s["seed"], int) else tuple(s["seed"])
+    f = _filters(case)
     if f is not None:
-        cfg["realization_filters"] = [{"method": f["method"], "options": f["options"]}]
+        cfg["realization_filters"] = [{"method": e["method"], "options": e["options"]} for e in f["filters"]]
         cfg["objectives"]["realization_filters"] = f["ofilt"]
         if nc:
             cfg["nonlinear_constraints"]["realization_filters"] = f["cfilt"]
+    if _request(case)[2] == "optimizer":
+        cfg["optimizer"] = {"method": "verif/script"}
     return cfg
 
 
@@ -334,35 +562,39 @@ def run_ens(case):
     from ropt.config.enopt import EnOptConfig
     from ropt.ensemble_evaluator import EnsembleEvaluator
     from ropt.evaluator import EvaluatorResult
-    from ropt.exceptions import OptimizationAborted
+    from ropt.exceptions import ConfigError, OptimizationAborted
+    from ropt.results import FunctionResults, GradientResults
     from ropt.transforms import OptModelTransforms, VariableScaler
 
-    R, P, no, nc = case["R"], case["P"], case["no"], case["nc"]
+    R, P, no, nc, V = case["R"], case["P"], case["no"], case["nc"], case["V"]
     nf = no + nc
     A = np.array(case["slopes"], dtype=np.float64)
     B = np.array(case["offsets"], dtype=np.float64)
     Q = None if case["quad"] is None else np.array(case["quad"], dtype=np.float64)
-    log = {}
+    ops, final, via, reuse = _request(case)
+    rfails = [case["rfail"]] + list(case.get("rfail_alt") or [case["rfail"], case["rfail"]])
+    state = {"pts": [0], "calls": [], "same0": {0}}
 
     def evaluator(variables, ctx):
         n = variables.shape[0]
         out = np.empty((n, nf))
         perts = ctx.perturbations
+        pts = state["pts"]
+        rec = {"real": [], "pert": [], "pt": []}
         for i in range(n):
             r = int(ctx.realizations[i])
             p = -1 if perts is None else int(perts[i])
             out[i] = A[r] @ variables[i] + B[r]
             if Q is not None:
                 out[i] += Q[r] * float(np.sum(variables[i] ** 2))
-            if (p < 0 and case["rfail"][r]) or (p >= 0 and case["pfail"][r][p]):
+            # unperturbed rows are laid out vector by vector (R rows each); perturbed rows belong to the only vector
+            k = pts[min(i // R, len(pts) - 1)] if p < 0 else pts[0]
+            if (p < 0 and rfails[k][r]) or (p >= 0 and case["pfail"][r][p]):
                 out[i, case["failcol"][r][p + 1]] = np.nan
-        if perts is not None and np.all(np.asarray(perts) >= 0) and "out" in log:
-            # gradient-only request after a function request (split mode): keep the function rows in front
-            log["out"] = np.vstack([log["out"][:R], out])
-            log["vars"] = np.vstack([log["vars"][:R], np.array(variables, dtype=np.float64)])
-        else:
-            log["out"] = out.copy()
-            log["vars"] = np.array(variables, dtype=np.float64)
+            rec["real"].append(r), rec["pert"].append(p), rec["pt"].append(k)
+        rec["vars"] = np.array(variables, dtype=np.float64)
+        rec["out"] = out.copy()
+        state["calls"].append(rec)
         return EvaluatorResult(objectives=out[:, :no].copy(), constraints=out[:, no:].copy() if nc else None)
 
     transforms = None
@@ -371,43 +603,181 @@ def run_ens(case):
         transforms = OptModelTransforms(variables=VariableScaler(
             np.array(sc["scales"], dtype=np.float64),
             None if sc["offsets"] is None else np.array(sc["offsets"], dtype=np.float64)))
+
+    def raw_tables(first_call):
+        """what the evaluator returned (before NaN propagation) for the unperturbed vector at point 0 (latest call that
+        evaluated it) and for the perturbations of the request under test, and the rows it received for the latter"""
+        raw0 = evx0 = None
+        for rec in reversed(state["calls"]):
+            idx = [i for i in range(len(rec["real"])) if rec["pert"][i] < 0 and rec["pt"][i] in state["same0"]]
+            if len(idx) >= R:
+                idx = idx[-R:]
+                raw0 = np.full((R, nf), np.nan)
+                evx0 = np.full((R, V), np.nan)
+                for i in idx:
+                    raw0[rec["real"][i]] = rec["out"][i]
+                    evx0[rec["real"][i]] = rec["vars"][i]
+                break
+        rawp = evx = None
+        for rec in state["calls"][first_call:]:
+            idx = [i for i in range(len(rec["real"])) if rec["pert"][i] >= 0]
+            if idx:
+                rawp = np.full((R, P, nf), np.nan)
+                evx = np.full((R, P, V), np.nan)
+                for i in idx:
+                    rawp[rec["real"][i], rec["pert"][i]] = rec["out"][i]
+                    evx[rec["real"][i], rec["pert"][i]] = rec["vars"][i]
+        return raw0, evx0, rawp, evx
+
     with warnings.catch_warnings():
         warnings.simplefilter("ignore")
         config = EnOptConfig.model_validate(_config_dict(case), context=transforms)
-        ee = EnsembleEvaluator(config, transforms, evaluator, _plugin_manager())
         x = np.array(config.variables.initial_values, dtype=np.float64)
+        free = np.ones(V, dtype=bool) if case["mask"] is None else np.array(case["mask"], dtype=bool)
+        pts = [x] + [x + np.array(d, dtype=np.float64) for d in (case.get("points") or [])]
+        # points within the evaluator's documented same-point tolerance of the initial values ARE that point
+        same0 = {k for k in range(len(pts)) if np.allclose(pts[k], x, rtol=0.0, atol=1e-15)}
+        for k in same0:
+            if k < len(rfails):
+                rfails[k] = rfails[0]
+        state["same0"] = same0
         obs = {"x": x.tolist(), "cfg_weights": np.array(config.realizations.weights, dtype=np.float64).tolist(),
-               "cfg_ow": np.array(config.objectives.weights, dtype=np.float64).tolist()}
+               "cfg_ow": np.array(config.objectives.weights, dtype=np.float64).tolist(),
+               "pmin": int(config.gradient.perturbation_min_success), "rmin": int(config.realizations.realization_min_success)}
+        buf = np.zeros(V if via == "evaluator" else int(free.sum()), dtype=np.float64)    # the caller's re-used buffer
+
+        def vector(op):
+            """the array handed in for a request: one vector (possibly the caller's re-used buffer) or a matrix"""
+            rows = [pts[k] if via == "evaluator" else pts[k][free] for k in op[1]]
+            if op[2]:
+                return np.vstack(rows)
+            if reuse:
+                buf[...] = rows[0]
+                return buf
+            return rows[0].copy()
+
+        def decoy():
+            """a second evaluator object for a DIFFERENT ensemble (function values 2 f + 1, realization weights reversed and
+            one of them zeroed) is built and asked for functions and then for the gradient at the same point just before
+            the judged request: nothing of it may leak into the first object"""
+            if not case.get("decoy"):
+                return
+            keep, kept_pts = len(state["calls"]), state["pts"]
+
+            def other(variables, ctx):
+                r = evaluator(variables, ctx)
+                return EvaluatorResult(objectives=r.objectives * 2.0 + 1.0,
+                                       constraints=None if r.constraints is None else r.constraints * 2.0 + 1.0)
+            w = list(reversed(case["weights"]))
+            pos = [i for i, v in enumerate(w) if v > 0]
+            if len(pos) >= 2:
+                w[pos[0]] = 0.0
+            try:
+                dcfg = EnOptConfig.model_validate(_config_dict({**case, "weights": w, "via": "evaluator"}), context=transforms)
+                state["pts"] = [0]
+                dee = EnsembleEvaluator(dcfg, transforms, other, _plugin_manager())
+                dee.calculate(x.copy(), compute_functions=True, compute_gradients=False)
+                dee.calculate(x.copy(), compute_functions=False, compute_gradients=True)
+            except (OptimizationAborted,) + ERRORS:
+                pass
+            finally:
+                del state["calls"][keep:]
+                state["pts"] = kept_pts
+
+        pre = []                 # result tuples of the history
+        marks = {}
+        final_op = [final, [0], False]
+        outcome = {}
         try:
-            f = g = None
-            if case.get("split"):
-                # the optimizer asks for the functions first and for the gradient at the same point later:
-                # the gradient-only path re-uses the cached function results (weights, failures)
+            EnsembleEvaluator(config, transforms, evaluator, _plugin_manager())
+        except ConfigError:
+            obs.update({"outcome": "config", "f0": np.zeros((R, nf)).tolist(), "fp": np.zeros((R, P, nf)).tolist(),
+                        "X": np.zeros((R, P, V)).tolist()})
+            return obs
+        if via == "evaluator":
+            ee = EnsembleEvaluator(config, transforms, evaluator, _plugin_manager())
+            for op in ops:
+                state["pts"] = op[1]
                 try:
-                    (f,) = ee.calculate(x, compute_functions=True, compute_gradients=False)
-                except OptimizationAborted:
-                    f = None
-                if f is not None and f.functions is not None:
-                    (g,) = ee.calculate(x, compute_functions=False, compute_gradients=True)
-                else:   # no functions: nothing is cached, the combined request decides (fresh evaluator)
-                    obs["split_fallback"] = True
-                    log.clear()
-                    ee = EnsembleEvaluator(config, transforms, evaluator, _plugin_manager())
-            if g is None:
-                f, g = ee.calculate(x, compute_functions=True, compute_gradients=True)
-        except OptimizationAborted as e:
-            out = _propagate(log["out"])
-            obs.update({"outcome": "abort", "exit_code": int(e.exit_code.value),
-                        "f0": out[:R].tolist(), "fp": out[R:].reshape(R, P, nf).tolist(),
-                        "X": log["vars"][R:].reshape(R, P, -1).tolist()})
+                    pre.append(ee.calculate(vector(op), compute_functions="f" in op[0], compute_gradients="g" in op[0]))
+                except (OptimizationAborted,) + ERRORS:
+                    pass
+            decoy()
+            marks["calls"] = len(state["calls"])
+            state["pts"] = [0]
+            try:
+                outcome["res"] = ee.calculate(vector(final_op), compute_functions="f" in final, compute_gradients=True)
+            except OptimizationAborted as e:
+                outcome["abort"] = int(e.exit_code.value)
+            except ERRORS + (np.linalg.LinAlgError,) as e:
+                outcome["error"] = type(e).__name__
+        else:
+            from ropt.optimization import EnsembleOptimizer
+            signalled = []
+
+            def script(cb, initial_values):
+                obs["seen_start"] = np.array(initial_values, dtype=np.float64).tolist()
+                for op in ops:
+                    state["pts"] = op[1]
+                    try:
+                        cb(vector(op), return_functions="f" in op[0], return_gradients="g" in op[0])
+                    except (OptimizationAborted,) + ERRORS:
+                        pass
+                decoy()
+                marks["calls"] = len(state["calls"])
+                marks["signalled"] = len(signalled)
+                state["pts"] = [0]
+                fun, grad = cb(vector(final_op), return_functions="f" in final, return_gradients=True)
+                outcome["cb"] = np.array(grad, dtype=np.float64).tolist()
+
+            pm = _plugin_manager(script)
+            ee = EnsembleEvaluator(config, transforms, evaluator, pm)
+            eo = EnsembleOptimizer(config, ee, pm,
+                                   signal_evaluation=lambda results=None: signalled.append(results) if results is not None else None)
+            try:
+                code = eo.start(x.copy())
+                obs["opt_exit"] = int(code.value)
+                if "signalled" not in marks:            # cannot happen: history errors are swallowed by the script
+                    raise RuntimeError("the scripted optimizer did not reach the request under test")
+                if len(signalled) > marks["signalled"]:
+                    outcome["res"] = signalled[-1]
+                else:
+                    outcome["abort"] = int(code.value)
+            except ERRORS + (np.linalg.LinAlgError,) as e:
+                outcome["error"] = type(e).__name__
+            pre = signalled[:marks.get("signalled", len(signalled))]
+
+        raw0, evx0, rawp, evx = raw_tables(marks.get("calls", 0))
+        if "res" not in outcome:
+            out0 = _propagate(raw0) if raw0 is not None else np.full((R, nf), np.nan)
+            outp = _propagate(rawp) if rawp is not None else np.full((R, P, nf), np.nan)
+            obs.update({"outcome": "abort" if "abort" in outcome else "error", "exit_code": outcome.get("abort"),
+                        "exception": outcome.get("error"), "f0": out0.tolist(), "fp": outp.tolist(),
+                        "X": (evx if evx is not None else np.zeros((R, P, V))).tolist()})
             return obs
-        except (ValueError, ZeroDivisionError, FloatingPointError, np.linalg.LinAlgError) as e:
-            # only legitimate when no successful realization carries weight (outside the property); Coq decides
-            out = _propagate(log["out"])
-            obs.update({"outcome": "error", "exception": type(e).__name__,
-                        "f0": out[:R].tolist(), "fp": out[R:].reshape(R, P, nf).tolist(),
-                        "X": log["vars"][R:].reshape(R, P, -1).tolist()})
-            return obs
+        res = outcome["res"]
+        g = next(r for r in res if isinstance(r, GradientResults))
+        f = next((r for r in res if isinstance(r, FunctionResults)), None)
+        obs["path"] = "both" if f is not None else "cached"
+        if f is None:
+            # the gradient was computed from cached function results: they are those of the latest function request at x
+            cands = [r for tup in pre for r in tup
+                     if isinstance(r, FunctionResults)
+                     and np.allclose(np.array(r.evaluations.variables), x, rtol=0.0, atol=1e-15)]
+            if cands:
+                f = cands[-1]
+            else:
+                # no function request at this point was ever made: whatever was used is stale; compare with a fresh evaluation
+                obs["stale_cache"] = True
+                state["pts"] = [0]
+                try:
+                    (f,) = EnsembleEvaluator(config, transforms, evaluator, _plugin_manager()).calculate(
+                        x.copy(), compute_functions=True, compute_gradients=False)
+                except (OptimizationAborted,) + ERRORS:
+                    obs.update({"outcome": "error", "exception": "stale-cache", "f0": np.full((R, nf), np.nan).tolist(),
+                                "fp": np.full((R, P, nf), np.nan).tolist(), "X": np.zeros((R, P, V)).tolist()})
+                    return obs
+                raw0, evx0, _, _ = raw_tables(marks.get("calls", 0))
     ev = g.evaluations
     f0 = np.array(f.evaluations.objectives)
     fp = np.array(ev.perturbed_objectives)
@@ -417,6 +787,10 @@ def run_ens(case):
     X = np.array(ev.perturbed_variables, dtype=np.float64)
     obs.update({
         "X": X.tolist(), "f0": f0.tolist(), "fp": fp.tolist(),
+        "gx": np.array(ev.variables, dtype=np.float64).tolist(),
+        "raw0": None if raw0 is None else raw0.tolist(), "rawp": None if rawp is None else rawp.tolist(),
+        "evx": None if evx is None else evx.tolist(), "evx0": None if evx0 is None else evx0.tolist(),
+        "cb": outcome.get("cb"),
         "failed_fn": [bool(v) for v in f.realizations.failed_realizations],
         "failed": [bool(v) for v in g.realizations.failed_realizations],
         # the weights in force are those of the FUNCTION results (they define the reported ensemble functions);
@@ -438,20 +812,21 @@ def run_ens(case):
     obs["grad"] = G.tolist()
     obs["wgrad"] = np.array(g.gradients.weighted_objective, dtype=np.float64).tolist()
     # singular values of the reported difference systems (LAPACK oracle; used by the model's own rule)
-    free = np.ones(x.size, dtype=bool) if case["mask"] is None else np.array(case["mask"], dtype=bool)
     succ = ~np.isnan(fp[:, :, 0]) & ~np.isnan(f0[:, :1])
-    s2, stack = [], []
-    wrow = np.array(obs["cfg_weights"], dtype=np.float64)
+    s2, Ds = [], []
     for r in range(R):
         D = (X[r] - x)[succ[r]][:, free]
+        Ds.append(D)
         if obs["failed"][r] or D.shape[0] == 0:
             s2.append([])
             continue
         s2.append((np.linalg.svd(D, compute_uv=False) ** 2).tolist())
-        if wrow[r] != 0:
-            stack.append(D)
     obs["s2"] = s2
-    obs["s2m"] = (np.linalg.svd(np.vstack(stack), compute_uv=False) ** 2).tolist() if (case["merge"] and stack) else []
+    s2m = []
+    for j in range(nf):
+        stack = [Ds[r] for r in range(R) if s2[r] and _weights_in_force(case, obs, j)[r] != 0]
+        s2m.append((np.linalg.svd(np.vstack(stack), compute_uv=False) ** 2).tolist() if (case["merge"] and stack) else [])
+    obs["s2m"] = s2m
     return obs
 
 
@@ -476,6 +851,14 @@ def run_impl(case):
 # ---------------------------------------------------------------------------------------------------
 def _free(case):
     return [True] * case["V"] if case["mask"] is None else [bool(m) for m in case["mask"]]
+
+
+def _pmin(case, obs):
+    return obs["pmin"] if "pmin" in obs else (case["pmin"] if case["pmin"] is not None else case["P"])
+
+
+def _rmin(case, obs):
+    return obs["rmin"] if "rmin" in obs else (case["rmin"] if case["rmin"] is not None else case["R"])
 
 
 def _weights_in_force(case, obs, j):
@@ -519,8 +902,8 @@ def _sigma(case, obs, j):
 
 def _scale(case, obs):
     vals = [1.0]
-    for key in ("x", "X", "f0", "fp"):
-        stack = [obs.get(key, [])]
+    for key in ("x", "X", "f0", "fp", "evx"):
+        stack = [obs.get(key) or []]
         while stack:
             v = stack.pop()
             if isinstance(v, list):
@@ -529,8 +912,9 @@ def _scale(case, obs):
                 vals.append(abs(v))
     big = max(vals)
     smin = [s[-1] for s in obs.get("s2", []) if s and s[-1] > 0]
-    if obs.get("s2m"):
-        smin.append(obs["s2m"][-1])
+    for s in obs.get("s2m") or []:
+        if s and s[-1] > 0:
+            smin.append(s[-1])
     amp = 1.0
     if smin and min(smin) > 0:
         amp = max(1.0, min(1e4, 1.0 / math.sqrt(min(smin))))
@@ -543,7 +927,7 @@ def _scale(case, obs):
 def _coq_ens(case, obs):
     R, P, no, nc, V = case["R"], case["P"], case["no"], case["nc"], case["V"]
     nf = no + nc
-    outcome = {"grad": "OGrad", "none": "ONone", "abort": "OAbort", "error": "OError"}[obs["outcome"]]
+    outcome = {"grad": "OGrad", "none": "ONone", "abort": "OAbort", "error": "OError", "config": "OConfig"}[obs["outcome"]]
     have_grad = obs["outcome"] == "grad"
     funcs = []
     for j in range(nf):
@@ -558,10 +942,12 @@ def _coq_ens(case, obs):
         if math.isnan(sigma):
             sigma = 0.0
         if case["quad"] is None:
-            sl = "(Some " + cq.lst(cq.lst(cq.q(v) for v in _slopes_opt(case, r, j)) for r in range(R)) + ")"
+            sl = "(Some " + cq.lst(cq.qs(case["slopes"][r][j]) for r in range(R)) + ")"        # user coordinates
         else:
             sl = "None"
-        funcs.append(f"(Build_fcase {est} {cq.qs(w)} {cq.oqs(f0)} {cq.oqmat(fp)} {cq.qs(grad)} {cq.b(gnan)} {cq.q(sigma)} {sl})")
+        s2m = obs["s2m"][j] if have_grad and obs.get("s2m") else []
+        funcs.append(f"(Build_fcase {est} {cq.qs(w)} {cq.oqs(f0)} {cq.oqmat(fp)} {cq.qs(grad)} {cq.b(gnan)} {cq.q(sigma)} "
+                     f"{cq.qs(s2m)} {sl})")
     X = cq.lst(cq.qmat(obs["X"][r]) for r in range(R))
     s2 = cq.lst(cq.qs(s) for s in obs.get("s2", [[] for _ in range(R)]))
     failed_fn = obs.get("failed_fn", [False] * R)
@@ -569,10 +955,20 @@ def _coq_ens(case, obs):
     wgrad = obs["wgrad"] if have_grad else [0.0] * V
     wnan = any(math.isnan(v) for v in wgrad)
     wgrad = [0.0 if math.isnan(v) else v for v in wgrad]
+    sc = case["scaler"]
+    scales = [1.0] * V if sc is None else sc["scales"]
+    offsets = [0.0] * V if sc is None or sc["offsets"] is None else sc["offsets"]
+    evx = obs.get("evx") if have_grad else None
+    evx_t = "None" if evx is None else "(Some " + cq.lst(cq.qmat(evx[r]) for r in range(R)) + ")"
+    cb = obs.get("cb") if have_grad else None
+    if cb is not None and any(math.isnan(v) for row in cb for v in row):
+        cb = None
+    cb_t = "None" if cb is None else f"(Some {cq.qmat(cb)})"
     return ("(Ens (Build_ens_case " + " ".join([
-        cq.q(_scale(case, obs)), cq.bs(_free(case)), cq.qs(obs["x"]), X, cq.nat(case["pmin"]), cq.nat(case["rmin"]),
-        cq.bs(failed_fn), cq.bs(failed), cq.b(case["merge"]), s2, cq.qs(obs.get("s2m", [])), cq.lst(funcs),
-        cq.nat(no), cq.qs(obs.get("cfg_ow", case["ow"])), cq.qs(wgrad), cq.b(wnan), outcome, cq.b(case["filter"] is None)]) + "))")
+        cq.q(_scale(case, obs)), cq.bs(_free(case)), cq.qs(obs["x"]), X, cq.nat(_pmin(case, obs)), cq.nat(_rmin(case, obs)),
+        cq.bs(failed_fn), cq.bs(failed), cq.b(case["merge"]), s2, cq.lst(funcs),
+        cq.nat(no), cq.qs(obs.get("cfg_ow", case["ow"])), cq.qs(wgrad), cq.b(wnan), outcome, cq.b(case["filter"] is None),
+        cq.qs(scales), cq.qs(offsets), evx_t, cb_t]) + "))")
 
 
 def _coq_ls(case, obs):
@@ -592,7 +988,8 @@ def coq_case(case, obs):
 # ---------------------------------------------------------------------------------------------------
 def _exact_rows(case, obs, ignore_bound=False):
     """For an affine case with reported gradients: list of (j, kind, exact gradient over all variables or None
-    when the property does not speak about row j, number of contributing realizations)."""
+    when the property does not speak about row j, number of contributing realizations, one-sided-weight stacked solve
+    (merged rows only: what the known finding C02:merged-gradient-scaled yields))."""
     import numpy as np
     R, P, no, nc, V = case["R"], case["P"], case["no"], case["nc"], case["V"]
     free = np.array(_free(case), dtype=bool)
@@ -602,42 +999,53 @@ def _exact_rows(case, obs, ignore_bound=False):
     f0 = np.array(obs["f0"], dtype=np.float64)
     fp = np.array(obs["fp"], dtype=np.float64)
     succ = ~np.isnan(fp[:, :, 0]) & ~np.isnan(f0[:, :1])
-    failed = np.isnan(f0[:, 0]) | (np.count_nonzero(~np.isnan(fp[:, :, 0]), axis=1) < case["pmin"])
+    failed = np.isnan(f0[:, 0]) | (np.count_nonzero(~np.isnan(fp[:, :, 0]), axis=1) < _pmin(case, obs))
     rows = []
     for j in range(no + nc):
         w = np.where(failed, 0.0, np.array(_weights_in_force(case, obs, j), dtype=np.float64))
         if not w.sum() > 0 or np.any(w < 0):
-            rows.append((j, "skip", None, 0))
+            rows.append((j, "skip", None, 0, None))
             continue
         w = w / w.sum()
         contrib = [r for r in range(R) if w[r] > 0]
         Ds = {r: (X[r] - x)[succ[r]][:, free] for r in contrib}
         ok = True
-        for r in contrib:
-            D = Ds[r]
-            s2 = np.linalg.svd(D, compute_uv=False) ** 2 if D.shape[0] else np.array([])
-            if ignore_bound:
-                ok &= len(s2) == nfree and nfree > 0 and s2[-1] > 1e-6 * s2.sum()
-            else:
-                ok &= _bound_ok(list(s2), nfree)
+        if case["merge"] and ignore_bound:
+            # the merged solve is ONE solve of the stacked system: only its rank matters for what the code computes
+            stack = np.vstack([Ds[r] for r in contrib])
+            s2 = np.linalg.svd(stack, compute_uv=False) ** 2 if stack.shape[0] else np.array([])
+            ok = len(s2) == nfree and nfree > 0 and s2[-1] > 1e-6 * s2.sum()
+        else:
+            for r in contrib:
+                D = Ds[r]
+                s2 = np.linalg.svd(D, compute_uv=False) ** 2 if D.shape[0] else np.array([])
+                if ignore_bound:
+                    ok &= len(s2) == nfree and nfree > 0 and s2[-1] > 1e-6 * s2.sum()
+                else:
+                    ok &= _bound_ok(list(s2), nfree)
         if not ok:
-            rows.append((j, "trivial", None, len(contrib)))
+            rows.append((j, "trivial", None, len(contrib), None))
             continue
         Aopt = np.array([[float(v) for v in _slopes_opt(case, r, j)] for r in range(R)])
+        onesided = None
         if case["merge"]:
             shared = all(Ds[r].shape == Ds[contrib[0]].shape and np.array_equal(Ds[r], Ds[contrib[0]]) for r in contrib)
             identical = all(np.array_equal(Aopt[r][free], Aopt[contrib[0]][free]) for r in contrib)
             if not (shared or identical):
-                rows.append((j, "trivial", None, len(contrib)))
+                rows.append((j, "trivial", None, len(contrib), None))
                 continue
+            stack = np.vstack([Ds[r] for r in contrib])
+            rhs = np.concatenate([w[r] * (fp[r][succ[r], j] - f0[r, j]) for r in contrib])
+            onesided = np.zeros(V)
+            onesided[free] = np.linalg.lstsq(stack, rhs, rcond=None)[0]
         exact = np.zeros(V)
         if not case["stds"][j]:
             exact[free] = (w[:, None] * Aopt)[:, free].sum(axis=0)
-            rows.append((j, "merged" if case["merge"] else "mean", exact, len(contrib)))
+            rows.append((j, "merged" if case["merge"] else "mean", exact, len(contrib), onesided))
         else:
             N = len(contrib)
             if N < 2:
-                rows.append((j, "skip", None, N))
+                rows.append((j, "skip", None, N, None))
                 continue
             fj = np.nan_to_num(f0[:, j])
             m = fj @ w
@@ -645,12 +1053,17 @@ def _exact_rows(case, obs, ignore_bound=False):
             sd = math.sqrt(max(var, 0.0))
             if sd > 1e-6:
                 exact[free] = (N / (N - 1) / sd * ((w * fj) @ Aopt - m * (w @ Aopt)))[free]
-                rows.append((j, "std", exact, N))
+                rows.append((j, "std", exact, N, None))
             elif sd < 1e-12:
-                rows.append((j, "std", exact, N))       # sigma == 0: the code returns zeros
+                rows.append((j, "std", exact, N, None))       # sigma == 0: the code returns zeros
             else:
-                rows.append((j, "skip", None, N))
+                rows.append((j, "skip", None, N, None))
     return rows, failed
+
+
+def _same(a, b):
+    import numpy as np
+    return a.shape == b.shape and bool(np.all((a == b) | (np.isnan(a) & np.isnan(b))))
 
 
 def oracle(case, obs):
@@ -666,6 +1079,16 @@ def oracle(case, obs):
         if not np.allclose(res, 0.0, atol=1e-9 * max(1.0, float(np.abs(A).max()) ** 2 * float(np.abs(g).max() + 1))):
             return {"clause": "invert_linear_equations_normal_equations", "detail": res.tolist()}
         return None
+    if obs.get("stale_cache"):
+        return {"clause": "gradient_from_function_values_of_another_point",
+                "detail": "a gradient-only request was answered from cached function results although no function request "
+                          "was ever made at this point"}
+    must_reject = bool(case["merge"]) and any(case["stds"])
+    if (obs.get("outcome") == "config") != must_reject:
+        return {"clause": "stddev_with_merged_realizations_is_rejected_and_nothing_else",
+                "detail": {"outcome": obs.get("outcome"), "merge": case["merge"], "stddev": case["stds"]}}
+    if must_reject:
+        return None
     if obs.get("outcome") == "abort":
         if obs.get("exit_code") != 1:
             return {"clause": "unexpected_abort_code", "detail": obs.get("exit_code")}
@@ -673,10 +1096,31 @@ def oracle(case, obs):
     if obs.get("outcome") == "error":
         f0 = np.array(obs["f0"], dtype=np.float64)
         fp = np.array(obs["fp"], dtype=np.float64)
-        failed = np.isnan(f0[:, 0]) | (np.count_nonzero(~np.isnan(fp[:, :, 0]), axis=1) < case["pmin"])
+        failed = np.isnan(f0[:, 0]) | (np.count_nonzero(~np.isnan(fp[:, :, 0]), axis=1) < _pmin(case, obs))
         if case["filter"] is None and np.where(failed, 0.0, np.array(obs["cfg_weights"])).sum() > 0:
             return {"clause": "exception_with_surviving_weight", "detail": obs.get("exception")}
         return None
+    if obs.get("outcome") not in ("grad", "none"):
+        return None
+    # ---- which inputs the gradient was computed from (both outcomes) -------------------------------------------
+    if "gx" in obs and obs["gx"] != obs["x"]:
+        return {"clause": "gradient_results_report_other_variables", "detail": {"got": obs["gx"], "want": obs["x"]}}
+    sc = case["scaler"]
+    s = np.ones(case["V"]) if sc is None else np.array(sc["scales"], dtype=np.float64)
+    o = np.zeros(case["V"]) if sc is None or sc["offsets"] is None else np.array(sc["offsets"], dtype=np.float64)
+    if obs.get("evx") is not None:
+        want = np.array(obs["X"], dtype=np.float64) * s + o
+        got = np.array(obs["evx"], dtype=np.float64)
+        if got.shape != want.shape or not np.allclose(got, want, rtol=1e-12, atol=1e-12):
+            return {"clause": "evaluated_rows_are_not_the_reported_perturbed_variables", "detail": {"evaluated": obs["evx"], "reported_user": want.tolist()}}
+    if obs.get("evx0") is not None:
+        want = np.array(obs["x"], dtype=np.float64) * s + o
+        got = np.array(obs["evx0"], dtype=np.float64)
+        if not np.allclose(got, want[None, :], rtol=1e-12, atol=1e-12):
+            return {"clause": "function_values_of_another_point", "detail": {"evaluated": obs["evx0"], "want": want.tolist()}}
+    for kraw, krep in (("raw0", "f0"), ("rawp", "fp")):
+        if obs.get(kraw) is not None and not _same(_propagate(obs[kraw]), np.array(obs[krep], dtype=np.float64)):
+            return {"clause": "reported_values_are_not_the_evaluator_values", "detail": {"which": krep, "evaluator": obs[kraw], "reported": obs[krep]}}
     if obs.get("outcome") != "grad":
         return None
     for kf, kg in (("ow_rows", "g_ow_rows"), ("cw_rows", "g_cw_rows")):
@@ -696,12 +1140,17 @@ def oracle(case, obs):
     want = np.array(obs["cfg_ow"], dtype=np.float64) @ G[:case["no"]]
     if not np.allclose(wg, want, rtol=1e-7, atol=1e-9 * scale, equal_nan=True):
         return {"clause": "weighted_objective_gradient", "detail": {"got": wg.tolist(), "want": want.tolist()}}
+    if obs.get("cb") is not None:
+        want = np.vstack([wg[free][None, :], G[case["no"]:][:, free]])
+        got = np.array(obs["cb"], dtype=np.float64)
+        if not _same(got, want):
+            return {"clause": "matrix_handed_to_the_optimizer", "detail": {"got": obs["cb"], "want": want.tolist()}}
     if case["quad"] is not None:
         return None
     rows, failed = _exact_rows(case, obs)
     if [bool(v) for v in failed] != obs["failed"]:
         return {"clause": "failed_realization_flags", "detail": {"got": obs["failed"], "want": [bool(v) for v in failed]}}
-    for j, kind, exact, count in rows:
+    for j, kind, exact, count, _ in rows:
         if exact is None:
             continue
         if not np.allclose(G[j], exact, rtol=1e-6, atol=1e-7 * scale):
@@ -712,7 +1161,9 @@ def oracle(case, obs):
 
 
 def known_signature(case, obs, violation):
-    """C02:merged-gradient-scaled -- merge_realizations=True AND reported * (#contributing) == exact."""
+    """C02:merged-gradient-scaled -- merge_realizations=True AND every reported gradient row equals the one-sided-weight
+    stacked solve (weights applied to the function differences only) AND some row therefore differs from the exact one.
+    Only the clause merged_affine_exact (or a model disagreement the oracle does not see) can be attributed to it."""
     import numpy as np
     if case["kind"] != "ens" or not case["merge"] or obs.get("outcome") != "grad" or case["quad"] is not None:
         return None
@@ -722,12 +1173,12 @@ def known_signature(case, obs, violation):
     rows, _ = _exact_rows(case, obs, ignore_bound=True)
     scale = max(1.0, float(np.abs(np.array(case["slopes"])).max()) * (max(case["scaler"]["scales"]) if case["scaler"] else 1.0))
     seen = False
-    for j, kind, exact, count in rows:
+    for j, kind, exact, count, onesided in rows:
         if kind == "skip":
             continue
-        if kind != "merged" or exact is None or count < 1:
+        if kind != "merged" or exact is None or onesided is None or count < 1:
             return None
-        if not np.allclose(G[j] * count, exact, rtol=1e-6, atol=1e-7 * scale):
+        if not np.allclose(G[j], onesided, rtol=1e-6, atol=1e-7 * scale):
             return None
         if count > 1 and not np.allclose(G[j], exact, rtol=1e-6, atol=1e-7 * scale):
             seen = True
@@ -736,7 +1187,7 @@ def known_signature(case, obs, violation):
 
 def _cond_ok(case, obs):
     rows, _ = _exact_rows(case, obs)
-    return any(e is not None for _, _, e, _ in rows) and all(k != "trivial" for _, k, _, _ in rows)
+    return any(r[2] is not None for r in rows) and all(r[1] != "trivial" for r in rows)
 
 
 def nontrivial(case, obs):
@@ -747,18 +1198,35 @@ def nontrivial(case, obs):
     return _cond_ok(case, obs)
 
 
+def _bounds_kind(case):
+    if case["bounds"] is None:
+        return "none"
+    if any(math.isinf(v) for v in case["bounds"][0] + case["bounds"][1]):
+        return "partly-infinite"
+    return "finite"
+
+
 def features(case, obs):
     if case["kind"] == "ls":
         return {"kind": "ls", "ls_n": case["n"], "ls_bound": _bound_ok(obs["s2"], case["n"]), "ls_consistent": case["a"] is not None}
     s = case["sampler"]
+    ops, final, via, reuse = _request(case)
+    f = _filters(case)
+    est = case.get("estimators")
     out = {"kind": "ens", "outcome": obs.get("outcome"), "V": case["V"], "R": case["R"], "P": case["P"],
            "nfree": sum(_free(case)), "functions": case["no"] + case["nc"],
-           "sampler": "inject" if s["kind"] == "inject" else s["method"], "shared": s["shared"],
+           "sampler": {"inject": "inject", "multi": "several-assigned-per-variable"}.get(s["kind"], s.get("method")),
+           "shared": s["shared"],
            "merge": case["merge_mode"] or "no", "affine": case["quad"] is None, "stddev": any(case["stds"]),
            "perturbation_failures": any(any(r) for r in case["pfail"]), "realization_failures": any(case["rfail"]),
-           "filter": case["filter"]["method"] if case["filter"] else "none", "scaler": case["scaler"] is not None,
-           "bounds": "none" if case["bounds"] is None else "set", "zero_weight": any(w == 0 for w in case["weights"]),
-           "request": ("split-fallback" if obs.get("split_fallback") else "functions-then-gradient") if case.get("split") else "combined"}
+           "filter": "none" if f is None else "+".join(sorted(e["method"] for e in f["filters"])),
+           "scaler": case["scaler"] is not None,
+           "bounds": _bounds_kind(case), "relative_magnitudes": case.get("ptypes") is not None,
+           "zero_weight": any(w == 0 for w in case["weights"]),
+           "estimator_list": "legacy" if est is None else ("default" if est["layout"] is None else ",".join(est["layout"])),
+           "request": case.get("request", "functions-then-gradient" if case.get("split") else "combined"),
+           "issued_through": via, "caller_buffer_reused": reuse, "answered": obs.get("path", "-"),
+           "second_evaluator_object_in_between": bool(case.get("decoy"))}
     if obs.get("outcome") == "grad" and case["quad"] is None:
         out["inside_1pct_bound"] = _cond_ok(case, obs)
     return out
@@ -771,14 +1239,23 @@ def _drop_realization(case, r):
     c = dict(case)
     for key in ("weights", "slopes", "offsets", "pfail", "rfail", "failcol"):
         c[key] = case[key][:r] + case[key][r + 1:]
+    if case.get("rfail_alt"):
+        c["rfail_alt"] = [row[:r] + row[r + 1:] for row in case["rfail_alt"]]
     if case["quad"] is not None:
         c["quad"] = case["quad"][:r] + case["quad"][r + 1:]
-    s = dict(case["sampler"])
-    if s["kind"] == "inject" and not s["shared"]:
-        s["design"] = s["design"][:r] + s["design"][r + 1:]
+
+    def drop(s):
+        s = dict(s)
+        if s["kind"] == "inject" and not s["shared"]:
+            s["design"] = s["design"][:r] + s["design"][r + 1:]
+        return s
+    s = drop(case["sampler"])
+    if s["kind"] == "multi":
+        s["list"] = [drop(e) for e in s["list"]]
     c["sampler"] = s
     c["R"] = case["R"] - 1
-    c["rmin"] = min(case["rmin"], c["R"])
+    if case["rmin"] is not None:
+        c["rmin"] = min(case["rmin"], c["R"])
     if not any(c["weights"]):
         return None
     return c
@@ -803,20 +1280,40 @@ def _drop_function(case, j):
         c["nc"] = nc - 1
     c["failcol"] = [[min(v, no + nc - 2) for v in row] for row in case["failcol"]]
     c["filter"] = None
+    if "estimators" in case:     # back to the plain two-entry list with explicit indices
+        c["estimators"] = {"layout": ["mean"] if case["merge"] else ["mean", "stddev"], "obj": [1 if s else 0 for s in c["stds"][:c["no"]]],
+                           "con": [1 if s else 0 for s in c["stds"][c["no"]:]] or None}
     return c
 
 
 def shrink(case):
     if case["kind"] != "ens":
         return
+    ops, final, via, reuse = _request(case)
+    if via == "optimizer":
+        yield {**case, "via": "evaluator"}
+    if reuse:
+        yield {**case, "reuse_buffer": False}
+    if case.get("decoy"):
+        yield {**case, "decoy": False}
+    if len(ops) > 1:
+        for k in range(len(ops)):
+            yield {**case, "ops": ops[:k] + ops[k + 1:], "request": "shrunk"}
+    if "ops" in case and ops and final == "fg":
+        yield {**case, "ops": [], "request": "combined"}
     if case["filter"] is not None:
         yield {**case, "filter": None}
     if case["scaler"] is not None:
         yield {**case, "scaler": None}
     if case["bounds"] is not None:
-        yield {**case, "bounds": None, "boundary": None}
+        yield {**case, "bounds": None, "boundary": None, "ptypes": None}
+    if case["sampler"]["kind"] == "multi":
+        first = next((e for e in case["sampler"]["list"] if e["kind"] == "inject"), None)
+        if first is not None:
+            yield {**case, "sampler": {**first, "seed": 0}}
     if any(any(r) for r in case["pfail"]) or any(case["rfail"]):
-        yield {**case, "pfail": [[False] * case["P"] for _ in range(case["R"])], "rfail": [False] * case["R"]}
+        yield {**case, "pfail": [[False] * case["P"] for _ in range(case["R"])], "rfail": [False] * case["R"],
+               "rfail_alt": [[False] * case["R"]] * 2}
     for r in range(case["R"] - 1, -1, -1):
         if case["R"] > 1:
             c = _drop_realization(case, r)
@@ -833,18 +1330,21 @@ def shrink(case):
 
 
 def search(rng, case):
-    """extra cases near a disagreeing one, judged by the oracle only: affine, injected designs, same switches."""
+    """extra cases near a disagreeing one, judged by the oracle only: affine, injected designs, same switches, and the
+    same request sequence."""
     merge = bool(case and case.get("kind") == "ens" and case.get("merge"))
+    request = case.get("request") if case and case.get("kind") == "ens" and case.get("request") in [r[0] for r in REQUESTS] else None
     for k in range(600):
         if case is not None and case.get("kind") == "ls":
             yield gen_ls(rng, between=(k % 3 == 0))
             continue
+        req = request if k % 2 == 0 else None
         if k % 4 == 3:
-            yield gen_ens(rng, sampler=METHODS[k % len(METHODS)], small=True, merge=merge)
+            yield gen_ens(rng, sampler=METHODS[k % len(METHODS)], small=True, merge=merge, request=req)
         elif k % 4 == 2:
-            yield gen_ens(rng, merge=merge, simple=True)
+            yield gen_ens(rng, merge=merge, simple=True, request=req)
         else:
-            yield gen_ens(rng, merge=merge)
+            yield gen_ens(rng, merge=merge, request=req)
     if case is None or case.get("kind") == "ls":
         for k in range(300):
             yield gen_ls(rng, between=(k % 2 == 0))
@@ -854,29 +1354,39 @@ MANIFEST = {
     "level_text": (
         "Machine-checked Coq proofs about the executable model of ropt's gradient estimation (Model/Gradient.v: difference "
         "systems, dropping of failed rows, certified exact least squares, merged weighted least squares, weight zeroing and "
-        "renormalisation, mean and stddev estimators, restriction to free variables and re-expansion with zeros), for all "
-        "sizes, masks, weights and failure patterns: any vector passing the normal-equation test equals the generating slope "
-        "under full column rank; on affine ensembles the per-realization estimate of every function equals the "
-        "normalised-weight combination of the slopes, the merged estimate does so for shared perturbations or identical "
-        "realizations, the stddev gradient equals the chain-rule expression, which is proved to be the derivative of the "
-        "variance polynomial; entries of fixed variables are the literal 0; the weighted-objective gradient is the weighted sum; "
-        "and under the property's 1 % conditioning bound the code's 99.9 % energy rule (with the SVD_TOLERANCE constant "
-        "re-extracted from the source on every run) truncates nothing.  The model is tied to the code on every run by an "
-        "in-Coq correspondence: the real EnsembleEvaluator.calculate and _invert_linear_equations are run on generated cases "
-        "and Coq recomputes the exact gradients from the reported perturbed variables and values and compares."),
+        "renormalisation, mean and stddev estimators, restriction to free variables and re-expansion with zeros, the variable "
+        "scaler's map and the matrix handed to the optimizer), for all sizes, masks, weights and failure patterns: any vector "
+        "passing the normal-equation test equals the generating slope under full column rank, minimises the residual sum of "
+        "squares for arbitrary data and is the unique minimiser under full rank; on affine ensembles the per-realization "
+        "estimate of every function equals the normalised-weight combination of the slopes, the merged estimate does so for "
+        "shared perturbations or identical realizations (for identical realizations already when only the stacked system has "
+        "full rank), the stddev gradient equals the chain-rule expression, which is proved to be the derivative of the variance "
+        "polynomial and to vanish when the variance does; an ensemble that is affine in user coordinates is affine in optimizer "
+        "coordinates with the slopes multiplied by the scales; entries of fixed variables are the literal 0, the matrix handed "
+        "to the optimizer consists of exactly the free columns; the weighted-objective gradient is the weighted sum; and under "
+        "the property's 1 % conditioning bound the code's 99.9 % energy rule (with the SVD_TOLERANCE constant re-extracted from "
+        "the source on every run) truncates nothing.  The model is tied to the code on every run by an in-Coq correspondence: "
+        "request sequences are issued to the real EnsembleEvaluator (directly and through EnsembleOptimizer's optimizer "
+        "callback) and to _invert_linear_equations, and Coq recomputes the exact gradients from the reported perturbed "
+        "variables and values and compares them, the rows the evaluator received and the matrix the callback returned."),
     "level_note": (
         "Trusted / modelled, not verified: LAPACK's SVD (the code's truncated pseudo-inverse is modelled as an exact "
         "least-squares solve; that the two agree is established only by the per-run numerical correspondence and, for the "
         "truncation decision, by the no-truncation theorem); NumPy singular values decide whether a case's values are "
         "compared (through the model's own truncation rule) and whether it counts as non-trivial; float rounding (exact "
-        "rationals + tolerance); the Python driver, the injected sampler plug-in and the table-driven evaluator; the Coq "
-        "kernel/VM and the translator.  The model's solver is an untrusted Cramer proposer whose result is accepted only if it "
-        "satisfies the normal equations exactly; proofs use only the acceptance test, so completeness of the proposer (that "
-        "it finds a solution whenever the rank is full) is tested, not proved.  Realization filters, bounds and magnitudes "
-        "are not modelled here: the reported weight rows and reported perturbed variables are inputs.  Merged estimation is "
-        "modelled as the property states it (weighted least squares); the current code scales the merged gradient by 1/number "
-        "of contributing realizations: known finding C02:merged-gradient-scaled, reported as KNOWN-FINDING on every run. "
-        "All theorems print 'Closed under the global context'."),
-    "technique": "Coq proofs (list induction over Q, translation-validated least squares) + in-Coq differential correspondence with the real evaluator",
+        "rationals + tolerance); the Python driver, the injected sampler and scripted optimizer plug-ins and the table-driven "
+        "evaluator; the Coq kernel/VM and the translator.  The model's solver is an untrusted Cramer proposer whose result is "
+        "accepted only if it satisfies the normal equations exactly; proofs use only the acceptance test, so completeness of "
+        "the proposer (that it finds a solution whenever the rank is full) is tested on every compared case (a model that "
+        "answers 'singular' there fails the case), not proved; the exactness theorems are therefore stated for the case that "
+        "the model returns a gradient.  The link between the NumPy singular values and the rank hypothesis of the theorems is "
+        "not formalised.  Realization filters, samplers, bounds and magnitudes are not modelled here: the reported weight rows "
+        "and reported perturbed variables are inputs (the latter are checked against the rows the evaluator received).  The "
+        "request sequence itself (cache hits and misses) is not modelled: the judged request must be exact whatever was asked "
+        "before.  Merged estimation is modelled as the property states it (weighted least squares); the current code applies "
+        "the weights to the function differences only: known finding C02:merged-gradient-scaled, reported as KNOWN-FINDING on "
+        "every run, recognised only when every reported row equals that one-sided-weight stacked solve.  All theorems print "
+        "'Closed under the global context'."),
+    "technique": "Coq proofs (list induction over Q, translation-validated least squares) + in-Coq differential correspondence with the real evaluator and optimizer callback over request sequences",
     "design_ref": "DESIGN.md section 4, C02",
 }
